@@ -8,6 +8,9 @@ from .tgroups import consts, family
 OPS = '{"tgopen", "close", "spawn", "yield", "wait", "raise", "hcancel"}'
 OPSX = '{"tgopen", "close", "spawn", "yield", "wait", "raise", "open", "cancel", "hcancel"}'
 FAMILY = family("C01", [
+    # three tasks, spawning only (into any active group, also while its block is being left): every edge
+    ModelCfg("c01-n3o4e0-spawn", consts(3, 4, 0, '{"tgopen", "close", "spawn", "yield"}', env="{}"),
+             emit=True, check=False, max_scenarios=6000),
     ModelCfg("c01-n2o3e1", consts(2, 3, 1, OPS), emit=True, check=False, max_scenarios=5000),
     ModelCfg("c01-n3o3e1", consts(3, 3, 1, OPS), tiers=("quick",), check=False, simulate=2000),
     ModelCfg("c01-n3o3e1x", consts(3, 3, 1, '{"tgopen", "close", "spawn", "yield", "wait", "raise"}'),
